@@ -105,7 +105,7 @@ class Check(BaseCheck):
         for i in range(16):
             specs.append({'campaign': 'nested', 'seed': seed, 'n': 90 if q else 2500, 'i': i})
         for i in range(16 if q else 48):
-            specs.append({'campaign': 'threads', 'seed': seed, 'i': i, 'runs': 2 if q else 12, 'evals': 150 if q else 600})
+            specs.append({'campaign': 'threads', 'seed': seed, 'i': i, 'runs': 3 if q else 12, 'evals': 180 if q else 600})
         return specs
 
     def run(self, spec, rec):
@@ -122,7 +122,9 @@ class Check(BaseCheck):
         g10 = C10.Gen(rnd)
         fixed = ['CF(A1,foo,B2:C3)+CF(1)', 'SUM(A1,B2)*foo', 'IFERROR(CF(A1),CF(2))', 'CF(CF(CF(1)))', '{A1,foo,CF(1)}', 'CF(A1:B2)&tagv', 'IF(A1>1,CF(1),CF(2))', 'foo', 'A1',
                  'A1:B2', 'CF()', 'MAX(CF(1),CF(2),CF(3))+A1', 'CONCATENATE(tagv,A1,CF("x"))', 'SUM(lst,CF(lst))', '1+2*3', 'xa*yb-zed', 'nosuch+A1', 'CF(1)+', 'SUM(1/0,A1)',
-                 'IFERROR(A1/0,foo)', 'TEXTJOIN(",",TRUE,tagv,"c",A1)', 'INDEX(lst,2)+foo', 'ROMAN(foo+1990)', 'DATE(2020,1,foo)+A1', 'COUNTIF(B2:C3,">1")+foo', '"a"&foo&"b"&A1']
+                 'IFERROR(A1/0,foo)', 'TEXTJOIN(",",TRUE,tagv,"c",A1)', 'INDEX(lst,2)+foo', 'ROMAN(foo+1990)', 'DATE(2020,1,foo)+A1', 'COUNTIF(B2:C3,">1")+foo', '"a"&foo&"b"&A1',
+                 '(foo>A1)+(xa<=yb)+(zed<>1)+(tagv="p1")', 'IF(foo<A1,IF(xa>=yb,1,2),IF(zed=0.5,3,4))', '(A1<B2)&(B2<A1)&(foo=foo)&(tagv<"q")', 'AND(foo>1,A1>=2,xa<>yb)',
+                 'MAX(A1,foo)-MIN(xa,yb)+ABS(zed)', 'INDEX(lst,1)&"|"&TEXTJOIN("-",TRUE,tagv,foo)', 'SUMIF(B2:C3,">"&foo)+COUNT(lst)', 'IFERROR(1/(foo-foo),tagv)&(xa>yb)']
         for _ in range(n):
             k = rnd.random()
             if k < 0.45:
